@@ -1,7 +1,7 @@
 (* C15 — which features of one feature group are computed together, stated without the algorithm.  Definitions only. *)
 From Coq Require Import List Bool Arith.
 Import ListNotations.
-Require Import MV.Model.Grouping.
+Require Import MV.Model.Options MV.Model.Identity MV.Model.Grouping.
 
 Definition is_typed (x : item) : bool := match it_ty x with Some _ => true | None => false end.
 
@@ -38,3 +38,12 @@ Definition kf_ambiguous (its : list item) : bool :=
     existsb (fun t1 => existsb (fun t2 =>
       is_typed t1 && is_typed t2 && Nat.eqb (it_kb t1) (it_kb u) && Nat.eqb (it_kb t2) (it_kb u)
       && negb (oty_eqb (it_ty t1) (it_ty t2))) its) its) its.
+
+(* (group options, compute frameworks) agree, as Python == sees it *)
+Definition opts_agree (a b : gfeat) : bool :=
+  py_eq (VDict (g_group a)) (VDict (g_group b)) && py_eq (cfw_val (g_cfw a)) (cfw_val (g_cfw b)).
+
+(* known-defect domain: two features whose group options are different but have the same canonical form
+   (list vs tuple, dict vs tuple of pairs): the hash-based grouping cannot tell them apart *)
+Definition kf_hash_conflation (fs : list gfeat) : bool :=
+  existsb (fun a => existsb (fun b => base_eqb a b && negb (opts_agree a b)) fs) fs.
